@@ -849,6 +849,30 @@ func nilTestEdges(v ssa.Value, wantNil bool) []edge {
 		isNilOnTrue := b.Op == token.EQL
 		out = append(out, boolEdges(b, isNilOnTrue == wantNil)...)
 	}
+	// a result kept in a cell (a named result that a deferred closure captures): `docBytes, err = f(); if err != nil` stores
+	// v and tests the load that follows in the same block, no other store to the cell in between
+	for _, r := range *v.Referrers() {
+		st, ok := r.(*ssa.Store)
+		if !ok || st.Val != v {
+			continue
+		}
+		after := false
+		for _, in := range st.Block().Instrs {
+			if in == ssa.Instruction(st) {
+				after = true
+				continue
+			}
+			if !after {
+				continue
+			}
+			if s2, isS := in.(*ssa.Store); isS && s2.Addr == st.Addr {
+				break
+			}
+			if ld, isLd := in.(*ssa.UnOp); isLd && ld.Op == token.MUL && ld.X == st.Addr {
+				out = append(out, nilTestEdges(ld, wantNil)...)
+			}
+		}
+	}
 	// chained error handling (`if err == nil { err = next() }; if err != nil { fail }`): v flows into φ p of block B along
 	// the edge P -> B and B branches on a nil test of p: entering B from P, the branch taken is decided by v
 	for _, r := range *v.Referrers() {
@@ -1736,6 +1760,15 @@ func (c *Ctx) inlinedResult(cl *ssa.Call, idx int, env Env, d int) (string, bool
 	if len(srs) != 1 || idx >= len(srs[0].Results) {
 		return "", false
 	}
+	// (a loop-carried value handed to the helper whose result it is: the call is not entered while it is being rendered)
+	if c.inlining[cl] {
+		return "", false
+	}
+	if c.inlining == nil {
+		c.inlining = map[*ssa.Call]bool{}
+	}
+	c.inlining[cl] = true
+	defer delete(c.inlining, cl)
 	genv := c.calleeEnv(&cl.Call, g, env)
 	return c.path(returnedValue(srs[0], idx), genv, d+2), true
 }
